@@ -43,7 +43,7 @@ def run(tier, seed, replay):
                     "path aborts non-zero; --use-gitignore leaves out what git ignores",
                     nat["bound"], nat["cases"], nat["violations"], nontrivial=nat["nontrivial"], samples=nat["samples"],
                     time_s=found.get("t", 0.0))
-    explained = any(i.status == "failed" for i in chk.items)
+    explained = chk.has_unlisted_failure()
     if nat["violations"] and not explained:
         v = nat["violations"][0]
         chk.report_violation("C15.bounded.trees", {"property": "C15", "obligation": "C15.bounded.trees",
